@@ -342,6 +342,16 @@ func (s *simSys) submit(ctx context.Context, in *simInst, e *simEntry, low bool)
 	switch src {
 	case "sequencer":
 		wt.Pool = cur
+		// the pool may have been rotated while the submission was in flight (a round running inside one of its
+		// storage operations): the answer waits on whichever pool registered it
+		in.l.poolMu.Lock()
+		if now := in.l.currentPool; now != cur {
+			if _, ok := now.byHash[computeCacheHash(e.P.Certificate, e.P.IsPrecert, e.P.IssuerKeyHash)]; ok {
+				wt.Pool = now
+			}
+		}
+		in.l.poolMu.Unlock()
+		cur = wt.Pool
 		if in.admitted == nil {
 			in.admitted = map[string]*pool{}
 		}
@@ -515,7 +525,9 @@ func (s *simSys) checkAckNow(a simAck) error {
 		}
 	}
 	want := a.Entry.ref(a.Index, a.Time)
-	if !simSameEntry(e, want) {
+	// the acknowledged entry is identified by its Merkle-covered fields; the chain (fingerprints) and the
+	// precertificate stored with it are those of the submission that was admitted first
+	if !bytes.Equal(e.MerkleTreeLeaf(), want.MerkleTreeLeaf()) {
 		return fmt.Errorf("acknowledged (entry %d, index %d, t=%d) but the stored leaf at that index is {idx=%d t=%d precert=%v cert=%x…}", a.Entry.ID, a.Index, a.Time, e.Index, e.Timestamp, e.IsPrecert, firstBytes(e.Cert, 8))
 	}
 	if a.Time > c.Time {
@@ -537,7 +549,7 @@ func (s *simSys) checkAcksAgainstModel() error {
 		if a.Index < 0 || a.Index >= int64(len(s.model)) {
 			return fmt.Errorf("acknowledgement (entry %d, index %d) is beyond the committed tree of size %d", a.Entry.ID, a.Index, len(s.model))
 		}
-		if !simSameEntry(s.model[a.Index], a.Entry.ref(a.Index, a.Time)) {
+		if !bytes.Equal(s.model[a.Index].MerkleTreeLeaf(), a.Entry.ref(a.Index, a.Time).MerkleTreeLeaf()) {
 			return fmt.Errorf("acknowledgement (entry %d, index %d, t=%d, via %s) does not match committed leaf {t=%d cert=%x…}", a.Entry.ID, a.Index, a.Time, a.Src, s.model[a.Index].Timestamp, firstBytes(s.model[a.Index].Cert, 8))
 		}
 	}
